@@ -1,5 +1,5 @@
 // ---- shims/net.rs : std::net address types and String byte views (TRUSTED contracts on std) ----
-pub use core::net::{Ipv4Addr, Ipv6Addr, SocketAddr, SocketAddrV4, SocketAddrV6};
+pub use core::net::{IpAddr, Ipv4Addr, Ipv6Addr, SocketAddr, SocketAddrV4, SocketAddrV6};
 #[verifier::external_type_specification]
 #[verifier::external_body]
 pub struct ExIpv4Addr(Ipv4Addr);
@@ -14,6 +14,8 @@ pub struct ExSocketAddrV4(SocketAddrV4);
 pub struct ExSocketAddrV6(SocketAddrV6);
 #[verifier::external_type_specification]
 pub struct ExSocketAddr(SocketAddr);
+#[verifier::external_type_specification]
+pub struct ExIpAddr(IpAddr);
 
 pub uninterp spec fn v4_octets(ip: Ipv4Addr) -> Seq<u8>;
 pub uninterp spec fn v6_octets(ip: Ipv6Addr) -> Seq<u8>;
@@ -52,6 +54,11 @@ pub assume_specification[ SocketAddrV6::new ](ip: Ipv6Addr, port: u16, flowinfo:
     ensures sa6_ip(r) == ip, sa6_port(r) == port, sa6_flow(r) == flowinfo, sa6_scope(r) == scope_id;
 pub assume_specification[ SocketAddrV6::ip ](a: &SocketAddrV6) -> (r: &Ipv6Addr) ensures *r == sa6_ip(*a);
 pub assume_specification[ SocketAddrV6::port ](a: &SocketAddrV6) -> (r: u16) ensures r == sa6_port(*a);
+
+pub open spec fn sa_ip(a: SocketAddr) -> IpAddr { match a { SocketAddr::V4(s) => IpAddr::V4(sa4_ip(s)), SocketAddr::V6(s) => IpAddr::V6(sa6_ip(s)) } }
+pub open spec fn sa_port(a: SocketAddr) -> u16 { match a { SocketAddr::V4(s) => sa4_port(s), SocketAddr::V6(s) => sa6_port(s) } }
+pub assume_specification[ SocketAddr::ip ](a: &SocketAddr) -> (r: IpAddr) ensures r == sa_ip(*a);
+pub assume_specification[ SocketAddr::port ](a: &SocketAddr) -> (r: u16) ensures r == sa_port(*a);
 
 // String: UTF-8 byte view
 pub uninterp spec fn sbytes(s: String) -> Seq<u8>;
